@@ -10,6 +10,8 @@ import (
 	v1 "k8s.io/api/core/v1"
 	"k8s.io/apimachinery/pkg/api/resource"
 	metav1 "k8s.io/apimachinery/pkg/apis/meta/v1"
+	"k8s.io/apimachinery/pkg/labels"
+	v1lister "k8s.io/client-go/listers/core/v1"
 )
 
 func init() {
@@ -19,6 +21,7 @@ func init() {
 	verifHarnesses["VerifHarness_C14_pod"] = VerifHarness_C14_pod
 	verifHarnesses["VerifHarness_C14_default"] = VerifHarness_C14_default
 	verifHarnesses["VerifHarness_C14_node"] = VerifHarness_C14_node
+	verifHarnesses["VerifHarness_C14_lister"] = VerifHarness_C14_lister
 }
 
 // symRequests builds a ResourceList with optional cpu / memory entries; returns
@@ -162,9 +165,12 @@ const (
 	c14Value = "shared"
 )
 
+// c14P prefixes the input names of the pod-shape builders (two pods in one harness)
+var c14P = ""
+
 func c14Owners(pod *v1.Pod) bool {
 	daemon := false
-	switch verifChoice("owners", 4) {
+	switch verifChoice(c14P+"owners", 4) {
 	case 1:
 		pod.OwnerReferences = []metav1.OwnerReference{{Kind: "ReplicaSet"}}
 	case 2:
@@ -178,7 +184,7 @@ func c14Owners(pod *v1.Pod) bool {
 }
 
 func c14Selector(pod *v1.Pod) (matches bool, any bool) {
-	switch verifChoice("selector", 4) {
+	switch verifChoice(c14P+"selector", 4) {
 	case 1:
 		pod.Spec.NodeSelector = map[string]string{"other": c14Value}
 		return false, true
@@ -198,7 +204,7 @@ var c14Ops = []v1.NodeSelectorOperator{v1.NodeSelectorOpIn, v1.NodeSelectorOpNot
 // match expression on the key uses In and lists the value, and whether any
 // affinity rule at all is present.
 func c14Affinity(pod *v1.Pod, terms, exprs int) (matches bool, anyRules bool) {
-	level := verifChoice("affinity.level", 5)
+	level := verifChoice(c14P+"affinity.level", 5)
 	switch level {
 	case 0:
 		return false, false
@@ -215,9 +221,9 @@ func c14Affinity(pod *v1.Pod, terms, exprs int) (matches bool, anyRules bool) {
 		return false, true
 	}
 	sel := &v1.NodeSelector{}
-	nT := verifChoice("affinity.terms", terms+1)
+	nT := verifChoice(c14P+"affinity.terms", terms+1)
 	for t := 0; t < nT; t++ {
-		ts := "t" + strconv.Itoa(t)
+		ts := c14P + "t" + strconv.Itoa(t)
 		var term v1.NodeSelectorTerm
 		nE := verifChoice(ts+".exprs", exprs+1)
 		for e := 0; e < nE; e++ {
@@ -337,4 +343,46 @@ func VerifHarness_C14_node() {
 	got := NewNodeLabelFilterFunc(c14Key, c14Value)(node)
 	verifAssert("C14.node-attribution", got == want)
 	verifReach("C14.node")
+}
+
+
+type c14PodStore struct {
+	v1lister.PodLister
+	pods []*v1.Pod
+}
+
+func (s *c14PodStore) List(sel labels.Selector) ([]*v1.Pod, error) { return s.pods, nil }
+
+type c14NodeStore struct {
+	v1lister.NodeLister
+	nodes []*v1.Node
+}
+
+func (s *c14NodeStore) List(sel labels.Selector) ([]*v1.Node, error) { return s.nodes, nil }
+
+// VerifHarness_C14_lister: attribution through the group listers follows the
+// pod as it is now: a pod re-created under the same namespace/name with another
+// shape between two listings is attributed by its current shape.
+func VerifHarness_C14_lister() {
+	pods := &c14PodStore{}
+	nodes := &c14NodeStore{}
+	opts := NodeGroupOptions{Name: "g", LabelKey: c14Key, LabelValue: c14Value}
+	group := NewNodeGroupLister(pods, nodes, opts)
+	def := NewDefaultNodeGroupLister(pods, nodes, NodeGroupOptions{Name: DefaultNodeGroup, LabelKey: c14Key, LabelValue: "default"})
+	for round := 0; round < 2; round++ {
+		c14P = []string{"a.", "b."}[round]
+		pod := &v1.Pod{}
+		pod.Namespace, pod.Name = "ns", "worker-0"
+		daemon := c14Owners(pod)
+		selMatch, anySel := c14Selector(pod)
+		affMatch, anyAff := c14Affinity(pod, verifShape(0), verifShape(0)) // expression shapes are C14_pod's subject
+		pods.pods = []*v1.Pod{pod}
+		got, err := group.Pods.List()
+		verifAssert("C14.lister-no-error", err == nil)
+		verifAssert("C14.lister-attribution", (len(got) == 1) == (!daemon && (selMatch || affMatch)))
+		gotDef, _ := def.Pods.List()
+		verifAssert("C14.default-lister-attribution", (len(gotDef) == 1) == (!daemon && !anySel && !anyAff))
+	}
+	c14P = ""
+	verifReach("C14.lister")
 }
